@@ -916,6 +916,14 @@ def m_vec_extend(I, st, inst, args):
             alts.append((s1, itv))
             continue
         nxt = inst.aux.get("next2")
+        if nxt is None and not isinstance(itv, (VecVal, Opaque)) and inst.aux.get("into_iter2") is not None:
+            # the argument is IntoIterator but not itself an iterator: look the iterator type's `next` up by name
+            ii = I.prog.insts[inst.aux["into_iter2"]]
+            rt = ii.sig[-1] if ii.sig else (ii.local_tys[0] if getattr(ii, "local_tys", None) else None)
+            it_t = I.types.get(rt)
+            cand = I.prog.by_name.get("<%s as std::iter::Iterator>::next" % (it_t.str if it_t is not None else "?"))
+            if cand is not None:
+                nxt = cand.id if hasattr(cand, "id") else cand
         if nxt is None and not isinstance(itv, (VecVal, Opaque)):
             raise Unsupported("extend: cannot iterate %r" % (itv,))
         if nxt is None or isinstance(itv, VecVal) or (isinstance(itv, Opaque) and itv.kind == "VecIntoIter"):
